@@ -184,7 +184,10 @@ impl Sys {
         };
         let mut msg = vec![0u8; 128];
         r.fill(&mut msg[..]);
-        let mut cred = vec![0u8; r.gen_range(1..40)];
+        // credential ids: short ones, and lengths that carry key_data across 256 bytes (65 + 191 = 256) up to the
+        // 1023 bytes WebAuthn allows
+        let clen = match r.gen_range(0..8) { 0 => 190, 1 => 191, 2 => 192, 3 => 300, 4 => 1023, _ => r.gen_range(1..40) };
+        let mut cred = vec![0u8; clen];
         r.fill(&mut cred[..]);
         Sys { e, w, d, kseed, sk1, sk2, ek1, ek2, p0, msg, cred }
     }
